@@ -73,6 +73,11 @@ def main(ctx):
         ctx.pmap({"fw": fw, "nvx": "1"}, "props.c05:job", jobs)
         ctx.pmap({"fw": fw, "nvx": "1"}, "props.c05:job_reasons",
                  [{"role": r} for r in ("server", "client")])
+        ctx.pmap({"fw": fw, "nvx": "1"}, "props.c05:job_codes",
+                 [{"role": r, "echo": e, "fbd": f, "lo": lo, "hi": lo + 8192}
+                  for r in ("server", "client") for e in (True, False) for f in (False, True)
+                  for lo in range(0, 65536, 8192)
+                  if tier == "thorough" or fw == "tx" or (e and not f)])
     ctx.coverage["states"] = int(ctx.counters["states"])
     ctx.coverage["transitions"] = int(ctx.counters["transitions"])
     ctx.coverage["traces_validated_against_impl"] = int(ctx.counters["transitions"])
@@ -80,7 +85,7 @@ def main(ctx):
     for n in ("states", "transitions", "bounded_time_runs", "reached:onclose_clean",
               "reached:onclose_unclean", "reached:close_timer_fired", "reached:peer_close_while_closing",
               "reached:closeframe_sent", "reached:own_drop_delivered", "reached:data_after_our_close_ignored",
-              "reached:sendclose_while_closing", "reached:connecting_lost", "reason_cases"):
+              "reached:sendclose_while_closing", "reached:connecting_lost", "reason_cases", "code_cases", "code_echoed", "code_rejected"):
         ctx.require(n)
 
 
@@ -108,6 +113,7 @@ class Sys:
         self.peer_close = None       # (code, reason_bytes) of the first VALID close frame fed
         self.peer_closes = []        # every VALID close frame fed (a misbehaving peer may send >1)
         self.first_peer_close_valid = None
+        self.rec_len_at_first_valid_close = None
         self.peer_close_any = False
         self.hs_done_len = 0
         self.deferred = False        # aio: octets queued, not yet processed
@@ -230,6 +236,8 @@ class Sys:
                         self.first_peer_close_valid = valid_close is not None
                     self.peer_close_any = True
                     if valid_close is not None:
+                        if not self.peer_closes:
+                            self.rec_len_at_first_valid_close = len(self.proto.rec)
                         self.peer_closes.append(valid_close)
                         if self.peer_close is None:
                             self.peer_close = valid_close
@@ -406,6 +414,11 @@ def monitors(s, ev):
         else:
             if code != 1006:
                 bad.append(("unclean-close-code", str(code)))
+    # M5b nothing is delivered that arrived after the peer's (valid, first) close frame
+    if s.rec_len_at_first_valid_close is not None and s.first_peer_close_valid:
+        late = [e[0] for e in rec[s.rec_len_at_first_valid_close:] if e[0] in ("onMessage", "onPing", "onPong")]
+        if late:
+            bad.append(("delivery-after-peer-close-frame", str(late)))
     # M6 is_closed
     import txaio
     if p.state == S_CLOSED and hasattr(p, "is_closed") and not txaio.is_called(p.is_closed):
@@ -608,6 +621,74 @@ def job_reasons(a):
                                 "replay": {"env": {"fw": env.get("fw"), "nvx": "1"},
                                            "func": "props.c05:job_reasons", "arg": a}})
     return {"evals": n, "viol": viol, "stats": {"reason_cases": n}}
+
+
+def job_codes(a):
+    """ALL 65536 close status codes a peer can send (with and without echoCloseCodeReason, both
+    roles, failByDrop on/off): whatever close frame the endpoint writes in reply carries a status
+    code that may legally appear on the wire; a code the RFC forbids on the wire is never echoed and
+    never reported as a clean close code"""
+    import struct
+    from harness import ws
+    from ref import ws_frames as F
+    from mc import worker
+    env = worker.ENV
+    role, echo, fbd = a["role"], a["echo"], a["fbd"]
+    mask = b"\x0a\x0b\x0c\x0d" if role == "server" else None
+    viol = []
+    seen = {}
+    stats = {"code_cases": 0, "code_echoed": 0, "code_rejected": 0}
+    for code in range(a["lo"], a["hi"]):
+        ep = ws.open_endpoint(role, {"echoCloseCodeReason": echo, "failByDrop": fbd})
+        start = len(ep.t.written)
+        ep.feed(F.encode(8, struct.pack("!H", code) + b"r", mask=mask))
+        ep.conn.settle()
+        if ep.conn.own_drop_pending():
+            ep.conn.deliver_own_drop()
+        elif not ep.conn.lost:
+            ep.conn.peer_drop(True)
+        ep.conn.settle()
+        stats["code_cases"] += 1
+        frames, _ = F.parse_frames(bytes(ep.t.written[start:]))
+        closes = [f for f in frames if f.opcode == 8]
+        probs = []
+        if len(closes) > 1:
+            probs.append(("two-close-frames", ""))
+        acc = F.close_code_acceptable_from_peer(code)
+        for f in closes:
+            if len(f.payload) >= 2:
+                c = struct.unpack("!H", f.payload[:2])[0]
+                if not F.close_code_wire_legal(c):
+                    probs.append(("close-code-not-wire-legal", "peer sent %d, we wrote %d" % (code, c)))
+                if c == code:
+                    stats["code_echoed"] += 1
+        oc = [e for e in ep.rec if e[0] == "onClose"]
+        if len(oc) != 1:
+            probs.append(("onclose-count", str(oc)))
+        elif acc == "reject":
+            stats["code_rejected"] += 1
+            if oc[0][1] is True and oc[0][2] == code:
+                probs.append(("forbidden-code-reported-as-clean-close", "code %d: %s" % (code, oc[0][1:])))
+            if fbd and closes:
+                probs.append(("closeframe-despite-failByDrop", "code %d" % code))
+            if not fbd and closes:
+                c = struct.unpack("!H", closes[0].payload[:2])[0] if len(closes[0].payload) >= 2 else None
+                if c != 1002:
+                    probs.append(("forbidden-code-not-answered-with-1002", "peer sent %d, we wrote %s" % (code, c)))
+        elif acc == "accept":
+            if oc[0][1] is not True or oc[0][2] != code:
+                probs.append(("valid-code-not-reported", "code %d: onClose%s" % (code, oc[0][1:])))
+        if ep.conn.escapes:
+            probs.append(("escape", repr(ep.conn.escapes[0])[:120]))
+        for clause, detail in probs:
+            sig = "C05|%s|codes|%s" % (clause, role)
+            seen[sig] = seen.get(sig, 0) + 1
+            if seen[sig] <= 2:
+                viol.append({"sig": sig, "desc": "[%s echo=%s failByDrop=%s fw=%s] peer close code %d: %s %s" % (
+                    role, echo, fbd, env.get("fw"), code, clause, detail),
+                    "replay": {"env": {"fw": env.get("fw"), "nvx": "1"}, "func": "props.c05:job_codes",
+                               "arg": dict(a, lo=code, hi=code + 1)}})
+    return {"evals": stats["code_cases"], "viol": viol, "stats": stats}
 
 
 def replay(a):
